@@ -36,6 +36,7 @@ type Sorts struct {
 	tags      map[string]int // type string → interface tag
 	tagNames  []string
 	tagTypes  map[string]types.Type
+	tagUsed   map[int]string
 	elts      map[Sort]bool
 	ghostDecl map[string][]ghostFieldDecl // readable struct name → ghost fields
 }
@@ -297,7 +298,13 @@ func (s *Sorts) Tag(t types.Type) int {
 	if n, ok := s.tags[key]; ok {
 		return n
 	}
-	n := len(s.tags) + 1
+	// stable numbering: a hash of the type name (so that the SMT text of an
+	// obligation does not depend on which other functions were processed before)
+	n := stableID(key, func(c int) bool { _, used := s.tagUsed[c]; return used })
+	if s.tagUsed == nil {
+		s.tagUsed = map[int]string{}
+	}
+	s.tagUsed[n] = key
 	s.tags[key] = n
 	s.tagTypes[key] = t
 	s.tagNames = append(s.tagNames, key)
@@ -395,4 +402,18 @@ func IntRange(t types.Type) (lo, hi *big.Int, ok bool) {
 		return nil, nil, false
 	}
 	return nil, nil, false
+}
+
+// stableID hashes a name to a positive 30-bit integer, probing on collision.
+func stableID(name string, used func(int) bool) int {
+	h := uint32(2166136261)
+	for i := 0; i < len(name); i++ {
+		h ^= uint32(name[i])
+		h *= 16777619
+	}
+	n := int(h%1000000000) + 1000
+	for used(n) {
+		n++
+	}
+	return n
 }
